@@ -149,10 +149,20 @@ func runCase(r *mon.Run, idx int) {
 		}
 	}()
 	if natural {
+		// the output direction must finish by itself; (the input half of a bidirectional attempt
+		// may legitimately stay attached until its client goes away, so Connect's return is not awaited)
+		if _, ok := w.Log.Wait(0, 3*bk.Bound, func(e bk.Event) bool {
+			return e.Kind == "hook" && e.Att == out.ID && e.Dir == "output" && e.S == "done"
+		}); !ok {
+			viol("output-stream-does-not-end", fmt.Sprintf("the reader returned %s but the output direction did not finish", sc.termErr))
+		}
+		if kind == "io" {
+			out.Cancel()
+		}
 		select {
 		case <-out.Ret:
-		case <-time.After(3 * bk.Bound):
-			viol("output-stream-does-not-end", fmt.Sprintf("the reader returned %s but ConnectOut did not return", sc.termErr))
+		case <-time.After(bk.Bound):
+			viol("output-stream-does-not-end", "Connect did not return after the output ended and the request context was cancelled")
 		}
 	} else {
 		// end by cancellation at a PRNG-chosen point of progress
